@@ -58,8 +58,18 @@ func (c *Classifier) Classify(t *html.Node) (Type, Reason) {
 	parent := t.Parent
 	for parent != nil {
 		parentTagName := dom.TagName(parent)
-		parentEditable := dom.GetAttribute(parent, "contenteditable")
-		if parentTagName == "input" || strings.ToLower(parentEditable) == "true" {
+		// An element is editable when its contenteditable attribute is in the "true"
+		// state (the value "true", the empty string, or no value at all) or in the
+		// "plaintext-only" state.
+		parentEditable := false
+		if dom.HasAttribute(parent, "contenteditable") {
+			switch strings.ToLower(strings.TrimSpace(dom.GetAttribute(parent, "contenteditable"))) {
+			case "true", "", "plaintext-only":
+				parentEditable = true
+			}
+		}
+
+		if parentTagName == "input" || parentEditable {
 			return c.logAndReturn(Layout, InsideEditableArea)
 		}
 		parent = parent.Parent
